@@ -229,6 +229,10 @@ def root(a: Node, q: int) -> Node:
             rn, rd = round(n ** (1.0 / q)), round(d ** (1.0 / q))
             if rn**q == n and rd**q == d:
                 return const(Fraction(rn, rd))
+    if q % 2 == 1 and a.op == "/":
+        # odd roots are total and multiplicative over the reals: one atom per numerator / denominator instead of one per
+        # quotient, so that (J/d)^(1/3), J^(1/3) and d^(1/3) are related in the normal form and not only by solver axioms
+        return mk("/", root(a.args[0], q), root(a.args[1], q))
     return Node("root", (a, q))
 
 
